@@ -44,6 +44,13 @@ func (d *PathDecoder) SignatureAtPos(filename string, pos hcl.Pos) (*lang.Functi
 		}
 
 		if len(f.Params) == 0 && f.VarParam == nil {
+			pRange := hcl.RangeBetween(fNode.OpenParenRange, fNode.CloseParenRange)
+			if len(fNode.Args) > 0 && pRange.ContainsPos(pos) {
+				// too many arguments passed to the function
+				signature = nil
+				return nil
+			}
+
 			signature = &lang.FunctionSignature{
 				Name:        fmt.Sprintf("%s(%s) %s", fNode.Name, parameterNamesAsString(f), f.ReturnType.FriendlyName()),
 				Description: lang.Markdown(f.Description),
